@@ -91,7 +91,8 @@ def op_script(o):
 class Replayer:
     """Compiles the configurations of a family and replays their histories."""
 
-    def __init__(self, label, rng):
+    def __init__(self, label, rng, counters=False):
+        self.counters = counters
         self.label = label
         self.rng = rng
         self.wd = core.subdir("rt-" + label)
@@ -100,10 +101,11 @@ class Replayer:
         self.examples = {}
 
     def add_case(self, case):
-        key = json.dumps(case["cfg"], sort_keys=True)
+        files = case.get("files") or [case["cfg"]]
+        key = json.dumps(files, sort_keys=True)
         e = self.cfgs.get(key)
         if e is None:
-            e = {"cfg": case["cfg"], "name": "g%05d" % len(self.cfgs), "cases": []}
+            e = {"cfg": case["cfg"], "files": files, "name": "g%05d" % len(self.cfgs), "cases": []}
             self.cfgs[key] = e
         e["cases"].append(case)
 
@@ -115,10 +117,14 @@ class Replayer:
         for i, e in enumerate(entries):
             d = os.path.join(self.wd, "in", e["name"])
             os.makedirs(d, exist_ok=True)
-            e["yaml"] = concretise.to_yaml(e["cfg"], self.rng)
-            with open(os.path.join(d, "in.yaml"), "w") as f:
-                f.write(e["yaml"])
-            jobs.append({"id": i, "dir": d, "args": ["-i", "in.yaml", "-o", "out.go"] + (["--stub"] if stub else []),
+            yamls = [concretise.to_yaml(fc, self.rng) for fc in e["files"]]
+            e["yaml"] = "\n--- next file ---\n".join(yamls)
+            ins = []
+            for k, y in enumerate(yamls):
+                with open(os.path.join(d, "in%d.yaml" % k), "w") as f:
+                    f.write(y)
+                ins += ["-i", "in%d.yaml" % k]
+            jobs.append({"id": i, "dir": d, "args": ins + ["-o", "out.go"] + (["--stub"] if stub else []),
                          "version": "dev-main", "buildinfo": "verif", "out": "out.go", "want_out": True})
         try:
             res = pool.run_all(jobs)
@@ -154,8 +160,10 @@ class Replayer:
                 if e["name"] not in good:
                     continue
                 for ci, c in enumerate(e["cases"]):
-                    scripts.append({"id": len(scripts), "pkg": e["name"], "ops": [op_script(h["op"]) for h in c["hist"]],
-                                    "_e": e["name"], "_ci": ci})
+                    ops = [op_script(h["op"]) for h in c["hist"]]
+                    if self.counters:
+                        ops = [{"op": "Counters"}] + ops + [{"op": "Counters"}]
+                    scripts.append({"id": len(scripts), "pkg": e["name"], "ops": ops, "_e": e["name"], "_ci": ci})
             res = pb.run([{k: v for k, v in s.items() if not k.startswith("_")} for s in scripts])
             for s in scripts:
                 out.setdefault(s["_e"], {})[s["_ci"]] = res[s["id"]]
@@ -171,6 +179,16 @@ def compare_case(case, res):
         return {"what": "container constructor", "err": res["err"]}
     hist = case["hist"]
     obs = res["res"]
+    if obs and "counters" in obs[0] and len(obs) == len(hist) + 2:
+        first, last = obs[0]["counters"], obs[-1]["counters"]
+        obs = obs[1:-1]
+        fn0 = {k: n for k, n in first.items() if k.startswith("fn:")}
+        if fn0:
+            return {"what": "parameter function invoked before first use", "counters_after_New": fn0}
+        want = {k: n for k, n in (case.get("cnt") or {}).items() if k.startswith("fn:")} if isinstance(case.get("cnt"), dict) else {}
+        got = {k: n for k, n in last.items() if k.startswith("fn:")}
+        if want != got:
+            return {"what": "parameter function invocation counts", "model": want, "observed": got}
     if len(obs) != len(hist):
         return {"what": "result count", "got": len(obs), "want": len(hist)}
     mterms, oterms = [], []
@@ -201,12 +219,12 @@ def compare_case(case, res):
     return None
 
 
-def run_family(pid, tier, family, cfgname, v, rng, nontrivial=None, timeout=1500, tags_of=None):
+def run_family(pid, tier, family, cfgname, v, rng, nontrivial=None, timeout=1500, tags_of=None, counters=False):
     """generic R2 loop for one MC_Container family; returns stats"""
     r = core.run_tlc("MC_Container.tla", cfgname, timeout=timeout)
     if r.violation:
         raise core.InfraError("TLC: design-level invariant violated in MC_Container/%s:\n%s" % (family, r.raw_tail[-2500:]))
-    rp = Replayer("%s-%s" % (pid, family), rng)
+    rp = Replayer("%s-%s" % (pid, family), rng, counters=counters)
     for c in r.emitted:
         rp.add_case(c)
     entries = rp.generate()
@@ -279,3 +297,36 @@ def run_c02(tier):
 def run_c05_runtime(tier, v, rng):
     fam = "scope2" if tier == "quick" else "scope3"
     return run_family("C05", tier, fam, "MC_Container_%s.cfg" % fam, v, rng, timeout=3000)
+
+
+def run_c04(tier):
+    pid = "C04"
+    t0 = time.time()
+    rng = random.Random(core.seed())
+    v = core.Verdict(pid)
+    fam = "tagsq" if tier == "quick" else "tags"
+    stats = [run_family(pid, tier, fam, "MC_Container_%s.cfg" % fam, v, rng, timeout=3000,
+                        nontrivial=lambda c: len(c["cfg"]["decorators"]) > 0 or len(c.get("files") or []) > 1)]
+    return finish(pid, tier, t0, v, stats, "model_checking",
+                  "TLC enumerates three tagged services with every assignment of priorities from the family's set (absent, negative, "
+                  "equal, large) and carry bits for a second tag, a consumer of `!tagged t1` and `!tagged t2`, eight decorator sequences "
+                  "(declaration order vs tag order, same function twice, decorator arguments of every form, a decorator depending on "
+                  "another tag) and the configuration spread over 1, 2 or 3 files (tags and decorators appended in file order); script: "
+                  "GetTaggedBy(t1), GetTaggedBy(t2), Get(consumer), Get(s1), GetTaggedBy(t1); non-trivial = has decorators or several files",
+                  ["TaggedSorted", "SplitInvariant", "SharedOnce"], COMMON_ASSUMPTIONS)
+
+
+def run_c15(tier):
+    pid = "C15"
+    t0 = time.time()
+    rng = random.Random(core.seed())
+    v = core.Verdict(pid)
+    fam = "todo" if tier == "quick" else "todo4"
+    stats = [run_family(pid, tier, fam, "MC_Container_%s.cfg" % fam, v, rng, timeout=3000, counters=True,
+                        nontrivial=lambda c: any(h["op"]["op"].startswith("Override") for h in c["hist"]) or any(not h["ok"] for h in c["hist"]))]
+    return finish(pid, tier, t0, v, stats, "model_checking",
+                  "every subset of {p1, p2, s1, s2} marked todo (16 configurations) x every history of length %d over "
+                  "{GetParam p1/p2, Get s1/s2, OverrideParam p1/p2, OverrideService s1/s2}; results, errors (documented texts), object "
+                  "graphs and the invocation counters of the parameter function (zero right after the constructor) are compared; "
+                  "non-trivial = the history contains an override or a failing operation" % (3 if tier == "quick" else 4),
+                  ["TodoFails", "LazyParams", "SharedOnce"], COMMON_ASSUMPTIONS)
